@@ -114,6 +114,9 @@ theorem bpc_le (req : Nat) (h : req ≤ 511) : bpc req ≤ 1028 := by
 theorem bpc_eq_blockBytes (req : Nat) : bpc req = blockBytes req := by
   unfold bpc blockBytes; split <;> split <;> omega
 
+/- `whnf` (unifier, linters) must not try to evaluate the mask loop on an open term. -/
+attribute [local irreducible] sentIdx thrIdx BlocksOk i16s maskLoop
+
 theorem decodePwb_ok_iff_raw (b : List UInt8) (p : PwbPacket) :
     decodePwb b = .ok p ↔ Raw b ∧ p = decoded b := by
   unfold decodePwb
@@ -124,19 +127,155 @@ theorem decodePwb_ok_iff_raw (b : List UInt8) (p : PwbPacket) :
       c20, c21, c22, c23, c24, c25, c26, c27, c28, c29, c30, c31, c32, c33, c34, c35, c36, c37, hp⟩
     exact ⟨⟨Nat.le_of_not_lt c1, c3, c5, c7, c9, c11, c14, Nat.le_of_not_gt c17,
       Nat.le_of_not_gt c19, c21, c25, c34, c35, c37⟩, hp.symm⟩
-  · rintro ⟨⟨r1, r2, r3, r4, r5, r6, r7, r8, r9, r10, r11, r12, r13, r14⟩, rfl⟩
-    have hs := sentIdx_eq b r10
-    have ht := thrIdx_eq b r11
+  · rintro ⟨r, rfl⟩
+    have hs := sentIdx_eq b r.sent79
+    have ht := thrIdx_eq b r.thr79
     have hlen : (chansOf (sentIdx b)).length ≤ 79 := by
       rw [hs, chansOf_length _ (sentBits_lt b)]; exact sentBits_length_le b
-    have hb := bpc_le _ r9
+    have hb := bpc_le _ r.req
     have hmul : bpc (requested b) * (chansOf (sentIdx b)).length ≤ 1028 * 79 :=
       Nat.mul_le_mul hb hlen
-    refine ⟨by omega, by omega, r2, by omega, r3, by omega, r4, by omega, r5, by omega, r6,
-      by omega, by omega, r7, by omega, by omega, by omega, by omega, by omega, by omega, r10,
-      by omega, ?_, by omega, r11, by omega, ?_, by omega, by omega, by omega, by omega, by omega,
-      by omega, r12, r13, by omega, r14, rfl⟩
+    have h56 := r.len
+    have hL := r.length
+    have h1 := r.lastSca
+    have h2 := r.req
+    refine ⟨by omega, by omega, r.version, by omega, r.chip, by omega, r.compression, by omega,
+      r.trigger, by omega, r.mac, by omega, by omega, r.zero, by omega, by omega, by omega,
+      by omega, by omega, by omega, r.sent79, by omega, ?_, by omega, r.thr79, by omega, ?_,
+      by omega, by omega, by omega, by omega, by omega, by omega, r.length, r.blocks, by omega,
+      r.marker, rfl⟩
     · rw [hs]; exact all_idxOk _ (sentBits_lt b)
     · rw [ht]; exact all_idxOk _ (thrBits_lt b)
+
+theorem boardOfMac_ne_none (m : List Nat) :
+    ¬boardOfMac m = none ↔ ∃ t ∈ AlphaG.Generated.padwingBoards, t.2.1 = m := by
+  unfold boardOfMac
+  rw [List.find?_eq_none]
+  simp
+
+theorem zero_iff (b : List UInt8) : leAt b 18 2 = 0 ↔ byteAt b 18 = 0 ∧ byteAt b 19 = 0 := by
+  simp only [leAt, Nat.reduceAdd]; omega
+
+/-- One block of the loop, against the documented content of that block. -/
+theorem blockOk_iff (b : List UInt8) (req n k i : Nat) (c : ChannelId)
+    (hlen : 52 + bpc req * n + 4 ≤ b.length) (hk : k < n)
+    (hc : readoutToChannel (i + 1) = some c) :
+    BlockOk b req c k ↔
+      leAt b (52 + bpc req * k) 2 = i + 1 ∧ leAt b (52 + bpc req * k + 2) 2 = req
+      ∧ (req % 2 = 1 → leAt b (52 + bpc req * k + 4 + 2 * req) 2 = 0) := by
+  have hb := bpc_ge req
+  have hm : bpc req * (k + 1) ≤ bpc req * n := Nat.mul_le_mul_left _ hk
+  rw [Nat.mul_succ] at hm
+  unfold BlockOk
+  constructor
+  · rintro ⟨_, h2, _, h4, _, h6⟩
+    refine ⟨readout_inj h2 hc, h4, fun ho => h6 (by omega)⟩
+  · rintro ⟨h1, h2, h3⟩
+    refine ⟨by omega, by rw [h1]; exact hc, by omega, h2, ?_, fun ho => h3 (by omega)⟩
+    by_cases ho : req % 2 = 0
+    · exact Or.inl ho
+    · have := hb.2 ho; right; omega
+
+theorem raw_iff_wf (b : List UInt8) : Raw b ↔ PwbWellFormed b := by
+  constructor
+  · intro r
+    have hs := sentIdx_eq b r.sent79
+    have hn := chansOf_length _ (sentBits_lt b)
+    have h56 := r.len
+    have hL := r.length
+    rw [hs, hn, bpc_eq_blockBytes] at hL
+    have hB := r.blocks
+    rw [hs, blocksOk_iff] at hB
+    refine ⟨r.len, r.version, r.chip, r.compression, r.trigger, (boardOfMac_ne_none _).1 r.mac,
+      (zero_iff b).1 r.zero, r.lastSca, r.req, (mask_bit79 b 24).1 r.sent79,
+      (mask_bit79 b 34).1 r.thr79, ?_, ?_, r.marker⟩
+    · unfold requested at hL; omega
+    · intro k hk
+      have hk' : k < (chansOf (sentBits b)).length := by rw [hn]; exact hk
+      have := (blockOk_iff b (requested b) (sentBits b).length k (sentBits b)[k] _
+        (by rw [bpc_eq_blockBytes]; omega) hk
+        (chansOf_getElem _ (sentBits_lt b) k hk' hk)).1 (by have := hB k hk'; rwa [Nat.zero_add] at this)
+      simpa [blockOff, requested, bpc_eq_blockBytes] using this
+  · intro w
+    have h79 := (mask_bit79 b 24).2 w.sentBit79
+    have hs := sentIdx_eq b h79
+    have hn := chansOf_length _ (sentBits_lt b)
+    have hL := w.length
+    refine ⟨w.minLen, w.version, w.chip, w.compression, w.trigger, (boardOfMac_ne_none _).2 w.mac,
+      (zero_iff b).2 w.zero1819, w.lastSca, w.req, h79, (mask_bit79 b 34).2 w.thrBit79, ?_, ?_,
+      w.marker⟩
+    · rw [hs, hn, bpc_eq_blockBytes]; unfold requested; omega
+    · rw [hs, blocksOk_iff]
+      intro k hk'
+      have hk : k < (sentBits b).length := by rw [← hn]; exact hk'
+      rw [Nat.zero_add]
+      apply (blockOk_iff b (requested b) (sentBits b).length k (sentBits b)[k] _
+        (by rw [bpc_eq_blockBytes]; unfold requested; omega) hk
+        (chansOf_getElem _ (sentBits_lt b) k hk' hk)).2
+      have := w.blocks k hk
+      simpa [blockOff, requested, bpc_eq_blockBytes] using this
+
+theorem timestamp_eq (b : List UInt8) (h : leAt b 18 2 = 0) : leAt b 12 8 = leAt b 12 6 := by
+  simp only [leAt, Nat.reduceAdd] at h ⊢; omega
+
+theorem decoded_eq_fields (b : List UInt8) (r : Raw b) : decoded b = fields b := by
+  unfold decoded fields
+  rw [sentIdx_eq b r.sent79, thrIdx_eq b r.thr79, timestamp_eq b r.zero]
+  rfl
+
+/-- Master characterisation: the decoder accepts exactly the well-formed slices and returns the
+documented fields. -/
+theorem decodePwb_ok_iff (b : List UInt8) (p : PwbPacket) :
+    decodePwb b = .ok p ↔ PwbWellFormed b ∧ p = fields b := by
+  rw [decodePwb_ok_iff_raw]
+  constructor
+  · rintro ⟨r, rfl⟩; exact ⟨(raw_iff_wf b).1 r, decoded_eq_fields b r⟩
+  · rintro ⟨w, rfl⟩
+    have r := (raw_iff_wf b).2 w
+    exact ⟨r, (decoded_eq_fields b r).symm⟩
+
+/-- C05 (acceptance): a payload is accepted iff it follows the documented layout. -/
+theorem pwb_accept_iff (b : List UInt8) : (∃ p, decodePwb b = .ok p) ↔ PwbWellFormed b := by
+  constructor
+  · rintro ⟨p, hp⟩; exact ((decodePwb_ok_iff b p).1 hp).1
+  · intro h; exact ⟨fields b, (decodePwb_ok_iff b _).2 ⟨h, rfl⟩⟩
+
+/-- C05 (fields): every accessor of an accepted packet is the documented field. -/
+theorem pwb_fields (b : List UInt8) (p : PwbPacket) (h : decodePwb b = .ok p) : p = fields b :=
+  ((decodePwb_ok_iff b p).1 h).2
+
+/-! ### Totality (C01 part) -/
+
+local macro "nb" : tactic => `(tactic| apply noPanic_needBytes (by omega))
+local macro "ie " h:ident : tactic => `(tactic| (apply noPanic_ite_err; intro $h:ident))
+
+/-- C01/C05 (totality): no byte string makes the PWB packet decoder panic (no out-of-bounds
+slice, no failing `unwrap`, no `u16`/`usize` overflow). -/
+theorem pwb_total (b : List UInt8) : NoPanic (decodePwb b) := by
+  unfold decodePwb
+  ie hlen
+  have hlen : 56 ≤ b.length := by omega
+  nb; ie _h0; nb; ie _h1; nb; ie _h2; nb; ie _h3; nb; ie _h4; nb; nb; ie _h5; nb; nb; ie _h6; nb
+  ie hreq; nb; ie h79; nb
+  have h79 : byteAt b 33 &&& 128 = 0 := Decidable.not_not.1 h79
+  have hs := sentIdx_eq b h79
+  apply noPanic_need (by rw [hs]; exact all_idxOk _ (sentBits_lt b))
+  nb; ie h79t; nb
+  have h79t : byteAt b 43 &&& 128 = 0 := Decidable.not_not.1 h79t
+  apply noPanic_need (by rw [thrIdx_eq b h79t]; exact all_idxOk _ (thrBits_lt b))
+  nb; nb; nb; nb; nb
+  have hn : (chansOf (sentIdx b)).length ≤ 79 := by
+    rw [hs, chansOf_length _ (sentBits_lt b)]; exact sentBits_length_le b
+  have hb := bpc_le (requested b) (by omega)
+  have hmul : bpc (requested b) * (chansOf (sentIdx b)).length ≤ 1028 * 79 :=
+    Nat.mul_le_mul hb hn
+  apply noPanic_need (by simp only [decide_eq_true_eq]; omega)
+  ie hL
+  have hL : bpc (requested b) * (chansOf (sentIdx b)).length + 4 = b.length - 52 :=
+    Decidable.not_not.1 hL
+  apply noPanic_checkBlocks _ _ _ _ _ (by rw [Nat.zero_add]; omega)
+  apply noPanic_need (by simp only [decide_eq_true_eq]; omega)
+  ie _h7
+  exact noPanic_ok _
 
 end AlphaG.Pwb
